@@ -580,6 +580,7 @@ def build_pipeline_inspection(
     all_required_params: set[str] = set()  # All parameters required from context
     all_created_keys: set[str] = set()  # All keys created by any node
     external_required_params: set[str] = set()  # Required before any node creates them
+    deleted_before_node: Dict[int, set[str]] = {}  # Keys deleted before each node runs
     errors: List[str] = []
 
     # Process each node configuration
@@ -735,6 +736,7 @@ def build_pipeline_inspection(
                 required_params.add(key)
 
         all_required_params.update(required_params)
+        deleted_at_resolution = set(deleted_keys)
         # Keys that no earlier node provides must come from the initial context.
         external_required_params.update(
             name
@@ -801,6 +803,8 @@ def build_pipeline_inspection(
                 f"Node {index} requires context keys previously deleted: {sorted(missing_deleted)}"
             )
 
+        deleted_before_node[index] = deleted_at_resolution
+
         # Create inspection data for this node
         node_inspection = NodeInspection(
             index=index,
@@ -842,6 +846,16 @@ def build_pipeline_inspection(
     # Calculate pipeline-level required context keys
     # These are parameters required by nodes but not created by any node
     required_context_keys = external_required_params
+
+    # A key required from the initial context is present for every node until it is
+    # deleted, so it overrides a same-named parameter default (config > context > default).
+    for node_inspection in inspection_nodes:
+        deleted_before = deleted_before_node.get(node_inspection.index, set())
+        for name in list(node_inspection.default_params):
+            if name in required_context_keys and name not in deleted_before:
+                node_inspection.default_params.pop(name)
+                node_inspection.config_params.pop(name, None)
+                node_inspection.context_params[name] = None
 
     return PipelineInspection(
         nodes=inspection_nodes,
